@@ -86,3 +86,34 @@ pub fn purity_synth<S: Src>(s: &mut S) -> Verdict {
     vcover!(s, true, "end");
     Ok(())
 }
+
+/// record builders (RR::new path, no combinator parser): build(x), build(x'), build(x)
+/// where x' differs from x only in the ASCII case of name letters (owner and NS target):
+/// each result is the wire form of *its own* arguments, and the two x results are identical.
+/// This is the shape under which a memo keyed case-insensitively, or a reused buffer, shows.
+pub fn purity_build<S: Src>(s: &mut S) -> Verdict {
+    use std::net::Ipv4Addr;
+    let ttl = s.u32();
+    let a = [s.u8(), s.u8(), s.u8(), s.u8()];
+    let hdr = |name: &[u8], t: Type| r#gen::RRHeader { name: name.to_vec(), ttl, class: Class::IN, rr_type: t };
+    cut_errors(2);
+    let r1 = r#gen::A::build(hdr(b"ab.cd", Type::A), Ipv4Addr::new(a[0], a[1], a[2], a[3]));
+    let r2 = r#gen::A::build(hdr(b"aB.Cd", Type::A), Ipv4Addr::new(a[0], a[1], a[2], a[3]));
+    let r3 = r#gen::A::build(hdr(b"ab.cd", Type::A), Ipv4Addr::new(a[0], a[1], a[2], a[3]));
+    let n1 = r#gen::NS::build(hdr(b"ab.cd", Type::NS), b"ns.ef".to_vec());
+    let n2 = r#gen::NS::build(hdr(b"AB.CD", Type::NS), b"NS.ef".to_vec());
+    cut_errors(0);
+    match (r1, r2, r3, n1, n2) {
+        (Ok(r1), Ok(r2), Ok(r3), Ok(n1), Ok(n2)) => {
+            vassert!(slices_eq(&r1.packet, &r3.packet), "same arguments, same record, whatever was synthesised in between");
+            vassert!(r1.packet.len() > 7 && slices_eq(&r1.packet[..7], &[2, b'a', b'b', 2, b'c', b'd', 0]), "builder: owner name is the wire form of its own argument");
+            vassert!(r2.packet.len() > 7 && slices_eq(&r2.packet[..7], &[2, b'a', b'B', 2, b'C', b'd', 0]), "builder: owner name is the wire form of its own argument, not of an earlier call's");
+            vassert!(slices_eq(&r1.packet[7..], &r2.packet[7..]), "builder: fixed fields and data do not depend on the owner's letter case");
+            vassert!(n1.packet.len() == 24 && slices_eq(&n1.packet[..7], &[2, b'a', b'b', 2, b'c', b'd', 0]) && slices_eq(&n1.packet[17..], &[2, b'n', b's', 2, b'e', b'f', 0]), "builder: NS names are the wire form of their own arguments");
+            vassert!(n2.packet.len() == 24 && slices_eq(&n2.packet[..7], &[2, b'A', b'B', 2, b'C', b'D', 0]) && slices_eq(&n2.packet[17..], &[2, b'N', b'S', 2, b'e', b'f', 0]), "builder: NS names are the wire form of their own arguments, not of an earlier call's");
+        }
+        _ => vassert!(false, "builder succeeds on valid fields (every time)"),
+    }
+    vcover!(s, true, "end");
+    Ok(())
+}
